@@ -1,30 +1,33 @@
 import Sismic.Proofs.C03
 import Sismic.Spec.Legal
 import Sismic.Proofs.Legal
+import Sismic.Proofs.LegalMulti
 import Sismic.Proofs.WFCheck
 /-!
 # Property C02 — the active configuration is always a legal, stable statechart configuration
 
 `Legal` is the property's notion of a legal configuration, over the model's `Chart`.
-Proved here: **stability** (after every call that returns a macro step nothing remains to be
-entered by default; a call that returns `None` leaves the configuration alone) and **final stays
-final** (an initialised interpreter with an empty configuration keeps it, whatever events arrive).
+Proved here, for all inputs: **legality** as an invariant, **stability** (after every call that
+returns a macro step nothing remains to be entered by default; a call that returns `None` leaves the
+configuration alone) and **final stays final** (an initialised interpreter with an empty
+configuration keeps it, whatever events arrive).
 
-**Legality as an inductive invariant** (`legal_preserved_partial`): for every well-formed chart
-(`WFChart`, DESIGN.md §2 W1–W8) and every call of `execute_once` that returns and plans at most
-one step (initialisation, an event consumed without transition, or *one* transition — wherever
-its source and target lie, including targets nested inside orthogonal regions, history states,
-ancestors, self-loops, the root), the invariant `LInv` (configuration empty or `Legal`, history
-memory re-enterable) is preserved; it holds initially (`legal_initially`).  Proof: every micro
-step keeps the configuration *semi-legal* (`Semi`: legal up to pending default entry —
-`createStep_semi`, `stabilizationStep_semi`, with the memory invariant `MemOK` for history
-restoration and `semi_final_only` for final states), and a semi-legal configuration on which no
-stabilisation step is pending is legal (`semi_stable_legal`).
-*Partial*: macro steps that fire several transitions at once (one per orthogonal region) are not
-covered: their later steps are computed from the configuration *before* the first one, and the
-frame argument (non-conflicting transitions touch disjoint subtrees) is not formalised.  The tie
-checks `legalB` after every step of every generated run on both sides (`./check C02`), which is
-how the defect D1 (orthogonal state entered through one region only) was found.
+**Legality is an inductive invariant** (`legal_preserved`, `legal_always`): for every well-formed
+chart (`WFChart`, DESIGN.md §2 W1–W8, decided by `wfB`), every evaluator and listener, and every
+call of `execute_once` that returns — initialisation, an event consumed without transition, one
+transition wherever its source and target lie (nested inside orthogonal regions, history states,
+ancestors, self-loops, the root), or several transitions at once (one per orthogonal region) —
+the invariant `LInv` (configuration empty or `Legal`, history memory re-enterable) is preserved;
+it holds initially (`legal_initially`), hence in every reachable state (`legal_always`).
+Proof (`Proofs/Legal.lean`, `Proofs/LegalMulti.lean`, `Proofs/Desc.lean`): every micro step keeps
+the configuration *semi-legal* (`Semi`: legal up to pending default entry — `createStep_semi_gen`,
+`stabilizationStep_semi`, with the memory invariant `MemOK` for history restoration and
+`semi_final_only` for final states); a semi-legal configuration on which no stabilisation step is
+pending is legal (`semi_stable_legal`); when several transitions fire, what `_sort_transitions`
+accepts is pairwise `Separated` (different regions of an orthogonal state), the steps planned in
+the original configuration are applied to a configuration that still agrees with it on the
+subtree they exit (`Pending`), and neither the other transitions' steps (`pending_after_other`)
+nor stabilisation (`stab_untouched`) touch that subtree (`runChain_multi`).
 -/
 namespace Sismic.C02
 open M
@@ -157,15 +160,15 @@ theorem legal_initially (c : Chart) (st : IState σ) (hi : st.initialized = fals
     (hm : st.memory = []) : LInv c st :=
   ⟨fun _ => hc, Or.inl hc, by rw [hm]; intro hs k l hf; simp at hf⟩
 
-/-- **Legality is preserved** by every call that returns and plans at most one step. -/
-theorem legal_preserved_partial (hwf : WFChart env.chart) (clock : Int) (rs rs' : RS σ ω) (r : Option MacroStep)
-    (h : executeOnce env clock rs = (.ok r, rs')) (hinv : LInv env.chart rs.st)
-    (hsingle : ∀ (st1 : IState σ) computed, st1.config = rs.st.config →
-      planOf env.chart env.E st1 = .ok computed → computed.length ≤ 1) :
+/-- **Legality is an inductive invariant of `execute_once`**: for every well-formed statechart,
+    every evaluator, every listener and every call that returns normally — whatever event is
+    consumed, however many transitions fire (one per orthogonal region), wherever their targets
+    lie — if the configuration was empty-or-legal with a re-enterable history memory before the
+    call, it is afterwards. -/
+theorem legal_preserved (hwf : WFChart env.chart) (clock : Int) (rs rs' : RS σ ω) (r : Option MacroStep)
+    (h : executeOnce env clock rs = (.ok r, rs')) (hinv : LInv env.chart rs.st) :
     LInv env.chart rs'.st := by
   obtain ⟨st1, computed, _, hc1, hm1, _, hinit, hplan, hi', _, hnil, hcons⟩ := executeOnce_ok env clock rs rs' _ h
-  have hS0 : SInv env.chart (rs.st.config, rs.st.memory) :=
-    ⟨hinv.legal.imp id (legal_semi env.chart hwf), hinv.memory⟩
   cases computed with
   | nil =>
     obtain ⟨_, hc, hm, _⟩ := hnil rfl
@@ -175,51 +178,56 @@ theorem legal_preserved_partial (hwf : WFChart env.chart) (clock : Int) (rs rs' 
     · rw [hm]; exact hinv.memory
   | cons p tail =>
     obtain ⟨steps, _, hchain, hcm, _⟩ := hcons p tail rfl
-    -- the planned step keeps the invariant
-    have htail : tail = [] ∧ SInv env.chart (applyMicro env.chart (rs.st.config, rs.st.memory) p) := by
+    have hfin : SInv env.chart (applyMicros env.chart (rs.st.config, rs.st.memory) steps) := by
       cases hin : rs.st.initialized with
       | false =>
         have := hinit hin
         simp only [List.cons.injEq] at this
         obtain ⟨hp, ht⟩ := this
-        refine ⟨ht, ?_⟩
+        subst ht
         have hcfg := hinv.notStarted hin
         obtain ⟨r0, hr0, _, _⟩ := hwf.root
         have e : applyMicro env.chart (rs.st.config, rs.st.memory) p = ([r0], rs.st.memory) := by
           rw [hp, hcfg, hr0]; rfl
+        apply runChain_single env.chart hwf _ p steps _ hchain
         rw [e]
         exact ⟨Or.inr (semi_root env.chart hwf r0 hr0), hinv.memory⟩
       | true =>
         have hp := hplan hin
-        have hlen := hsingle st1 (p :: tail) hc1 hp
-        have ht : tail = [] := by
-          cases tail with
-          | nil => rfl
-          | cons _ _ => simp at hlen
-        refine ⟨ht, ?_⟩
-        rw [ht] at hp
-        have := planned_inv env.chart hwf env.E st1 p hp (by rw [hc1, hm1]; exact hS0)
+        have := planned_chain_inv env.chart hwf env.E st1 (p :: tail) steps hp
+          (by rw [hc1]; exact hinv.legal) (by rw [hm1]; exact hinv.memory) (by rw [hc1, hm1]; exact hchain)
         rw [hc1, hm1] at this
         exact this
-    obtain ⟨ht, hSp⟩ := htail
-    subst ht
-    obtain ⟨a, stab, rest, rfl, hshape, hstab, hrest⟩ := hchain
-    have hrest' : rest = [] := hrest
-    subst hrest'
-    have e1 : applyMicros env.chart (rs.st.config, rs.st.memory) (a :: stab ++ []) =
-        applyMicros env.chart (applyMicro env.chart (rs.st.config, rs.st.memory) p) stab := by
-      simp only [applyMicros, List.append_nil, List.foldl_cons]
-      rw [applyMicro_shape _ _ a p hshape]
-    have hfin := stabChain_inv env.chart hwf stab _ hSp hstab
-    rw [← e1, ← hcm] at hfin
-    have hstable := runChain_stable env.chart [p] (a :: stab ++ []) _ (by simp)
-      ⟨a, stab, [], rfl, hshape, hstab, rfl⟩
+    rw [← hcm] at hfin
+    have hstable := runChain_stable env.chart (p :: tail) steps _ (by simp) hchain
     rw [← hcm] at hstable
     refine ⟨?_, ?_, hfin.2⟩
     · intro hf; rw [hi'] at hf; cases hf
     rcases hfin.1 with he | hS
     · exact Or.inl he
     · exact Or.inr (semi_stable_legal env.chart hwf hS hstable)
+
+/-- what can happen to an interpreter: calls of `execute_once` that return normally, and anything
+    else that leaves configuration, memory and the initialised flag alone (queueing events, moving
+    the clock, attaching listeners, changing the context) -/
+inductive Reach : RS σ ω → RS σ ω → Prop
+  | refl (rs) : Reach rs rs
+  | step {rs rs1 rs2} (clock : Int) (r : Option MacroStep) :
+      executeOnce env clock rs = (.ok r, rs1) → Reach rs1 rs2 → Reach rs rs2
+  | other {rs rs1 rs2} : rs1.st.config = rs.st.config → rs1.st.memory = rs.st.memory →
+      rs1.st.initialized = rs.st.initialized → Reach rs1 rs2 → Reach rs rs2
+
+/-- **The active configuration is always empty or legal**: in every state reachable from a fresh
+    interpreter (`legal_initially`) by any history of events, clock moves and steps. -/
+theorem legal_always (hwf : WFChart env.chart) (rs rs' : RS σ ω) (hr : Reach env rs rs')
+    (hinv : LInv env.chart rs.st) : LInv env.chart rs'.st := by
+  induction hr with
+  | refl => exact hinv
+  | step clock r hx _ ih => exact ih (legal_preserved env hwf clock _ _ r hx hinv)
+  | other hc hm hi _ ih =>
+    apply ih
+    exact ⟨fun hf => by rw [hc]; exact hinv.notStarted (hi ▸ hf), by rw [hc]; exact hinv.legal,
+      by rw [hm]; exact hinv.memory⟩
 
 /-! ### non-vacuity: a statechart with an orthogonal state, a nested target and a history state is
     well-formed (by the decision procedure `wfB`, which the driver also evaluates on every generated
